@@ -13,7 +13,7 @@ pub(crate) struct C06;
 
 pub(crate) const ENDINGS: &[&str] = &[
     "quit", "quit_reason", "eof", "eof_midline", "eof_midline_cr", "reset", "halfopen_eof", "halfopen_reset", "kill_by_oper", "self_kill",
-    "bad_utf8", "reset_unread_output", "close_unread_output", "two_at_once", "quit_and_eof_same_segment", "line_too_long", "too_long_unterminated",
+    "bad_utf8", "reset_unread_output", "close_unread_output", "two_at_once", "quit_and_eof_same_segment", "line_too_long", "too_long_unterminated", "kill_stuck_then_reuse",
 ];
 const POSITIONS: u64 = 5;
 
@@ -102,6 +102,13 @@ impl Check for C06 {
         // the history depends only on `hist` (and the batch seed folded into run_seed's high part is not used:
         // enumeration must pair every kind/position with the same history)
         let hseed = crate::rt::mix(0xC06, hist) ^ (_run_seed & 0xffff_0000_0000_0000);
+        if kind == "kill_stuck_then_reuse" {
+            // a directed scenario with its own (model-free) oracle: see stuck.rs
+            let mut t = crate::stuck::gen("C06", crate::rt::mix(hseed, idx));
+            t.params.insert("ending".to_string(), kind.to_string());
+            t.params.insert("position".to_string(), pos.to_string());
+            return t;
+        }
         let mut r = Rng::new(hseed);
         let cfg = config(&mut r.fork(3));
         let mut prof = profile_for("C06");
@@ -280,6 +287,11 @@ impl Check for C06 {
     }
 
     fn exec(&self, trace: &Trace) -> Outcome {
+        if trace.params.get("scenario").map_or(false, |s| s == "stuck_kill") {
+            let mut o = crate::stuck::exec(trace, "C06");
+            o.count("ending.kill_stuck_then_reuse", 1);
+            return o;
+        }
         let mut o = exec_model(trace, "C06");
         if let (Some(k), Some(p), Some(cell)) = (trace.params.get("ending"), trace.params.get("position"), trace.params.get("victim_cell")) {
             o.cov_keys.push(hash_key(&["ending", k, p, cell]));
